@@ -28,6 +28,8 @@ pub enum SOp {
     Update,
     Withdraw { amt: X },
     WithdrawLiq { amt: X },
+    /// `init` called again later in the run: another deposit followed by a rebalance
+    InitAgain { amt: X },
 }
 
 #[derive(Clone, Debug, Serialize, Deserialize)]
@@ -223,7 +225,7 @@ impl<'a> Sim<'a> {
 
     fn exec(&mut self, rec: &OpRec) {
         self.ctx.ops += 1;
-        self.ctx.ileave(0, rec.modes.len() as u64, match rec.op { SOp::RunLoop => 1, SOp::Update => 2, SOp::Withdraw { .. } => 3, SOp::WithdrawLiq { .. } => 4 });
+        self.ctx.ileave(0, rec.modes.len() as u64, match rec.op { SOp::RunLoop => 1, SOp::Update => 2, SOp::Withdraw { .. } => 3, SOp::WithdrawLiq { .. } => 4, SOp::InitAgain { .. } => 5 });
         self.sh.set_modes(&rec.modes);
         alator::verif::set_positions_seed(Some(rec.perm));
         self.ctx.bump("f9_positions_permutations_installed");
@@ -312,6 +314,29 @@ impl<'a> Sim<'a> {
                 rule!(
                     self.ctx, "C16", "net-cash-flow", "withdraw", close(self.strat.verif_net_cash_flow(), self.deposits - self.withdrawn, 1e-9),
                     "after withdraw: net_cash_flow {:?}, deposits {:?} - successful withdrawals {:?}", self.strat.verif_net_cash_flow(), self.deposits, self.withdrawn
+                );
+            }
+            SOp::InitAgain { amt } => {
+                self.any_withdrawal_attempt = true; // the constant-price clause speaks of a single deposit
+                let cash0 = self.strat.verif_brkr().get_cash_balance();
+                self.strat.init(&amt.0);
+                self.absorb_wire();
+                let cash1 = self.strat.verif_brkr().get_cash_balance();
+                // successful iff the broker really credited it (it refuses deposits once Failed)
+                let ok = cash1 - cash0 == amt.0 || crate::common::close(cash1 - cash0, amt.0, 1e-12);
+                ev!(self.ctx, "init-again {:?} -> {}", amt.0, if ok { "deposited" } else { "refused" });
+                if ok {
+                    self.deposits += amt.0;
+                    self.led.cash += amt.0;
+                    self.led.deposits += amt.0;
+                    self.ctx.bump("probe_second_deposit");
+                } else {
+                    self.ctx.bump("probe_deposit_refused_by_failed_broker");
+                }
+                rule!(
+                    self.ctx, "C16", "net-cash-flow", "init-again", close(self.strat.verif_net_cash_flow(), self.deposits - self.withdrawn, 1e-9),
+                    "after a second init({:?}) that the broker {}: net_cash_flow {:?}, successful deposits {:?} - successful withdrawals {:?}",
+                    amt.0, if ok { "accepted" } else { "refused" }, self.strat.verif_net_cash_flow(), self.deposits, self.withdrawn
                 );
             }
             SOp::WithdrawLiq { amt } => {
@@ -430,7 +455,8 @@ impl Engine for E4 {
                 let cash = b.get_cash_balance();
                 let total = b.get_total_value();
                 alator::verif::set_positions_seed(None);
-                let op = match g.usize(10) {
+                let op = match g.usize(12) {
+                    10 => SOp::InitAgain { amt: X(*g.pick(&[1000.0, 50_000.0, 100_000.0])) },
                     0 => SOp::Withdraw { amt: X(*g.pick(&[100.0, 1000.0, (cash / 2.0).floor().max(1.0), cash + 1.0])) },
                     1 => SOp::WithdrawLiq { amt: X((cash.max(0.0) + (total - cash).max(0.0) * g.f64() * 0.5).floor() + 1.0) },
                     _ => SOp::Update,
